@@ -51,7 +51,7 @@ def run(ctx):
     ctx.assumptions = ["the JSON rendering of the abstract config is glue (deny_unknown_fields makes the tool reject a wrong rendering)"]
     ctx.build_and_audit(need_cli=True)
     rng = ctx.rng.fork("c09")
-    ncases = 220 if ctx.tier == "quick" else 6000
+    ncases = 900 if ctx.tier == "quick" else 6000
     pool = [b for b, j, t in rpucases.gen_structured(rng.fork("gen"), 500) if len(b) >= 25 and "remaining=0" in t]
     # keep RPUs that the tool can rewrite unmodified (so that the identity oracle is meaningful)
     chk, _, _ = common.run_lines_sharded(common.LIBCASE, ["rpu.write " + hx(b) for b in pool])
